@@ -106,6 +106,9 @@ class LiteralToken(RegexpBaseToken):
             else:
                 # TODO in theory, the degree can be calculated using the expression
                 real_value = int(self.value[2]) * 10 ** int(self.value[7] or 0)
+                if abs(real_value) > 2 ** 53:
+                    # a number is a double: beyond 2**53 not every whole number exists, the literal denotes the nearest one
+                    real_value = float(f'{self.value[2]}e{self.value[7] or 0}')
             real_value = repr(real_value)
         elif self.value[1] or self.value[0] == '""':
             real_value = repr(self.value[1])
